@@ -135,7 +135,7 @@ func (x *Exec) dispatchCall(st *State, fr *Frame, ci calleeInfo, res ssa.Value, 
 		if fr.depth < 6 && !x.onStack(fr, ci.fn) {
 			nf := &Frame{fn: ci.fn, regs: map[ssa.Value]Val{}, cells: map[*ssa.Alloc]Val{}, active: map[*ssa.BasicBlock]bool{},
 				parent: fr, retBlock: b, retIdx: idx, retPrev: prev, retInstr: res, loops: x.prog.loopsOf(ci.fn),
-				params: ci.args, freeVars: ci.bindings, depth: fr.depth + 1, isGo: kind == "go"}
+				params: ci.args, freeVars: ci.bindings, depth: fr.depth + 1, isGo: kind == "go", callKey: ci.key, callKind: kind, callPos: pos}
 			if fc := x.prog.contractFor(ci.fn); fc != nil {
 				nf.contract = fc // inline-flagged contract: loop invariants only
 			}
